@@ -105,6 +105,49 @@ impl Driver {
     }
 }
 
+/// make the event happen in the harness (the model is not advanced and the client task is not polled)
+fn inject(d: &mut Driver, ev: &Ev, problems: &mut Vec<Problem>, obs_log: &mut Vec<String>, i: usize) {
+    let before_now = d.model.now;
+    let next_timer = d.model.next_timer();
+    let delivery = d.model.delivery(ev);
+    match ev {
+        Ev::ReplyRest => {
+            let rest = d.model.partial_rest.clone().expect("partial pending");
+            d.h.io().expect("io").deliver(&rest);
+        }
+        Ev::Enable(h) | Ev::Disable(h) | Ev::SetDecode(h) | Ev::Shutdown(h) => d.command(*h, ev),
+        Ev::Submit { handle, style, timeout_ms } => {
+            let id = d.model.next_req;
+            let r = d.h.submit(*handle, &request_for(id), d.model.unit, *timeout_ms, style_of(*style));
+            obs_log.push(format!("submit {id} -> {:?}", r.as_ref().err()));
+        }
+        Ev::DropHandle(h) => {
+            d.h.handles[*h] = None;
+            d.h.pending.retain(|(hh, _)| hh != h);
+        }
+        Ev::AbortTask => d.h.task.abort(),
+        Ev::ConnectOk => {
+            if !d.h.connect_ok() {
+                problems.push(Problem { aspect: 'L', sig: "no-attempt-pending".into(), desc: "model is Connecting but no connection attempt is pending".into(), step: i });
+            }
+        }
+        Ev::ConnectFail => {
+            if !d.h.connect_fail(std::io::ErrorKind::ConnectionRefused) {
+                problems.push(Problem { aspect: 'L', sig: "no-attempt-pending".into(), desc: "model is Connecting but no connection attempt is pending".into(), step: i });
+            }
+        }
+        Ev::ReplyOk | Ev::ReplyException | Ev::ReplyBad | Ev::ReplyStale(_) | Ev::BadHeader | Ev::ReplyPartial(_) => {
+            d.h.io().expect("io").deliver(delivery.as_ref().unwrap());
+        }
+        Ev::ReadError => d.h.io().expect("io").read_error(std::io::ErrorKind::ConnectionReset),
+        Ev::Eof => d.h.io().expect("io").eof(),
+        Ev::WriteErrorNext => d.h.io().expect("io").set_write_mode(WriteMode::Error(std::io::ErrorKind::BrokenPipe)),
+        Ev::AdvanceToNext => crate::sim::advance(next_timer.unwrap() - before_now),
+        Ev::Advance1 => crate::sim::advance(1),
+        Ev::AdvanceToJustBefore => crate::sim::advance(next_timer.unwrap() - 1 - before_now),
+    }
+}
+
 /// execute one path from a fresh task; stops at the first divergence from the model
 pub fn run_path(cfg: &SmCfg, events: &[Ev]) -> PathResult {
     let tcfg = ClientTaskCfg {
@@ -132,56 +175,9 @@ pub fn run_path(cfg: &SmCfg, events: &[Ev]) -> PathResult {
     }
     for (i, ev) in events.iter().enumerate() {
         obs_log.push("--step--".to_string());
-        let before_now = d.model.now;
-        let next_timer = d.model.next_timer();
-        let delivery = d.model.delivery(ev);
         let n_ios = d.h.ios.len();
-        let e = match ev {
-            Ev::ReplyRest => {
-                let rest = d.model.partial_rest.clone().expect("partial pending");
-                d.h.io().expect("io").deliver(&rest);
-                d.model.apply(ev)
-            }
-            _ => {
-                match ev {
-                    Ev::Enable(h) | Ev::Disable(h) | Ev::SetDecode(h) | Ev::Shutdown(h) => d.command(*h, ev),
-                    Ev::Submit { handle, style, timeout_ms } => {
-                        let id = d.model.next_req;
-                        let r = d.h.submit(*handle, &request_for(id), d.model.unit, *timeout_ms, style_of(*style));
-                        obs_log.push(format!("submit {id} -> {:?}", r.as_ref().err()));
-                    }
-                    Ev::DropHandle(h) => {
-                        d.h.handles[*h] = None;
-                        d.h.pending.retain(|(hh, _)| hh != h);
-                    }
-                    Ev::AbortTask => d.h.task.abort(),
-                    Ev::ConnectOk => {
-                        if !d.h.connect_ok() {
-                            problems.push(Problem { aspect: 'L', sig: "no-attempt-pending".into(), desc: "model is Connecting but no connection attempt is pending".into(), step: i });
-                        }
-                    }
-                    Ev::ConnectFail => {
-                        if !d.h.connect_fail(std::io::ErrorKind::ConnectionRefused) {
-                            problems.push(Problem { aspect: 'L', sig: "no-attempt-pending".into(), desc: "model is Connecting but no connection attempt is pending".into(), step: i });
-                        }
-                    }
-                    Ev::ReplyOk | Ev::ReplyException | Ev::ReplyBad | Ev::ReplyStale(_) | Ev::BadHeader => {
-                        d.h.io().expect("io").deliver(delivery.as_ref().unwrap());
-                    }
-                    Ev::ReplyPartial(_) => {
-                        d.h.io().expect("io").deliver(delivery.as_ref().unwrap());
-                    }
-                    Ev::ReadError => d.h.io().expect("io").read_error(std::io::ErrorKind::ConnectionReset),
-                    Ev::Eof => d.h.io().expect("io").eof(),
-                    Ev::WriteErrorNext => d.h.io().expect("io").set_write_mode(WriteMode::Error(std::io::ErrorKind::BrokenPipe)),
-                    Ev::AdvanceToNext => crate::sim::advance(next_timer.unwrap() - before_now),
-                    Ev::Advance1 => crate::sim::advance(1),
-                    Ev::AdvanceToJustBefore => crate::sim::advance(next_timer.unwrap() - 1 - before_now),
-                    Ev::ReplyRest => unreachable!(),
-                }
-                d.model.apply(ev)
-            }
-        };
+        inject(&mut d, ev, &mut problems, &mut obs_log, i);
+        let e = d.model.apply(ev);
         let ok = d.h.settle();
         compare(&mut d, &e, ok, n_ios, &mut problems, &mut obs_log, i);
         if !problems.is_empty() {
@@ -191,45 +187,88 @@ pub fn run_path(cfg: &SmCfg, events: &[Ev]) -> PathResult {
     PathResult { problems, model: d.model, obs: obs_log }
 }
 
-fn compare(d: &mut Driver, e: &Expected, settled: bool, n_ios_before: usize, problems: &mut Vec<Problem>, log: &mut Vec<String>, step: usize) {
-    let mut p = |aspect: char, sig: &str, desc: String| problems.push(Problem { aspect, sig: sig.to_string(), desc, step });
-    if let Some(msg) = &d.h.task.panicked {
-        p('P', "panic", format!("client task panicked: {msg}"));
-        return;
-    }
-    if !settled {
-        p('P', "busy-loop", "poll budget exceeded".into());
-        return;
-    }
-    let now = d.model.now;
-    // wire
+/// everything the harness can see after a step (taking it is destructive, judging it is not)
+struct Obs {
+    panicked: Option<String>,
+    settled: bool,
+    wire: Vec<Vec<u8>>,
+    done: Vec<(usize, Outcome, u64)>,
+    completed_twice: Vec<usize>,
+    states: Vec<(ClientState, u64)>,
+    attempts: Vec<u64>,
+    /// was the transport that was open before the step dropped? (None: there was none)
+    prev_io_dropped: Option<bool>,
+    n_ios_after: usize,
+    task_done: bool,
+    cmd_results: Vec<bool>,
+}
+
+fn observe(d: &mut Driver, settled: bool, n_ios_before: usize, log: &mut Vec<String>) -> Obs {
     let mut wire: Vec<Vec<u8>> = vec![];
     for io in &d.h.ios {
         wire.extend(io.take_written());
     }
     log.push(format!("wire {:?}", wire.iter().map(|w| hex(w)).collect::<Vec<_>>()));
-    if wire != e.wire {
+    let done = d.h.take_done();
+    log.push(format!("done {done:?}"));
+    let mut completed_twice = vec![];
+    for (id, _, _) in &done {
+        if d.seen_ids.contains(id) {
+            completed_twice.push(*id);
+        }
+        d.seen_ids.push(*id);
+    }
+    let states = d.h.take_states();
+    log.push(format!("states {states:?}"));
+    let attempts = d.h.take_attempts();
+    log.push(format!("attempts {attempts:?}"));
+    let prev_io_dropped = if n_ios_before != usize::MAX && n_ios_before > 0 { Some(d.h.ios[n_ios_before - 1].is_dropped()) } else { None };
+    let cmd_results = std::mem::take(&mut *d.cmd_results.lock().unwrap());
+    log.push(format!("cmd {cmd_results:?} done={}", d.h.task.is_done()));
+    Obs {
+        panicked: d.h.task.panicked.clone(),
+        settled,
+        wire,
+        done,
+        completed_twice,
+        states,
+        attempts,
+        prev_io_dropped,
+        n_ios_after: d.h.ios.len(),
+        task_done: d.h.task.is_done(),
+        cmd_results,
+    }
+}
+
+/// compare an observation with what the model (already advanced past the step) expects
+fn judge_obs(o: &Obs, e: &Expected, model: &ClientModel, n_ios_before: usize, step: usize) -> Vec<Problem> {
+    let mut problems = vec![];
+    let mut p = |aspect: char, sig: &str, desc: String| problems.push(Problem { aspect, sig: sig.to_string(), desc, step });
+    if let Some(msg) = &o.panicked {
+        p('P', "panic", format!("client task panicked: {msg}"));
+        return problems;
+    }
+    if !o.settled {
+        p('P', "busy-loop", "poll budget exceeded".into());
+        return problems;
+    }
+    let now = model.now;
+    if o.wire != e.wire {
         p(
             'W',
             "wire",
             format!(
                 "expected frames {:?} got {:?}",
                 e.wire.iter().map(|w| hex(w)).collect::<Vec<_>>(),
-                wire.iter().map(|w| hex(w)).collect::<Vec<_>>()
+                o.wire.iter().map(|w| hex(w)).collect::<Vec<_>>()
             ),
         );
     }
-    // completions
-    let done = d.h.take_done();
-    log.push(format!("done {done:?}"));
-    for (id, _, _) in &done {
-        if d.seen_ids.contains(id) {
-            p('C', "completed-twice", format!("request {id} completed a second time"));
-        }
-        d.seen_ids.push(*id);
+    for id in &o.completed_twice {
+        p('C', "completed-twice", format!("request {id} completed a second time"));
     }
     let mut exp: Vec<&(usize, OutClass)> = e.completions.iter().collect();
-    for (id, out, at) in &done {
+    for (id, out, at) in &o.done {
         match exp.iter().position(|x| x.0 == *id) {
             None => p('C', "unexpected-completion", format!("request {id} completed with {} (not expected now)", trunc(&format!("{out:?}")))),
             Some(pos) => {
@@ -251,9 +290,7 @@ fn compare(d: &mut Driver, e: &Expected, settled: bool, n_ios_before: usize, pro
         p('C', &format!("missing-completion:{}", class_name(want)), format!("request {id} should have completed with {} at {now} ms", trunc(&format!("{want:?}"))));
     }
     // listener
-    let states = d.h.take_states();
-    log.push(format!("states {states:?}"));
-    let got: Vec<MState> = states.iter().map(|(s, _)| mstate(s)).collect();
+    let got: Vec<MState> = o.states.iter().map(|(s, _)| mstate(s)).collect();
     let got_s: Vec<MState> = got.iter().map(strip).collect();
     let exp_s: Vec<MState> = e.states.iter().map(strip).collect();
     if got_s != exp_s {
@@ -261,26 +298,23 @@ fn compare(d: &mut Driver, e: &Expected, settled: bool, n_ios_before: usize, pro
     } else if got != e.states {
         p('D', "announced-delay", format!("expected {:?} got {:?}", e.states, got));
     }
-    for (_, at) in &states {
+    for (_, at) in &o.states {
         if *at != now {
             p('D', "announcement-time", format!("state announced at {at} ms, expected {now} ms"));
         }
     }
     // attempts
-    let attempts = d.h.take_attempts();
-    log.push(format!("attempts {attempts:?}"));
-    if attempts.len() != e.attempts {
-        p('L', "connect-attempts", format!("expected {} connection attempts got {:?}", e.attempts, attempts));
+    if o.attempts.len() != e.attempts {
+        p('L', "connect-attempts", format!("expected {} connection attempts got {:?}", e.attempts, o.attempts));
     }
-    for a in &attempts {
+    for a in &o.attempts {
         if *a != now {
             p('D', "attempt-time", format!("connection attempt at {a} ms, expected {now} ms"));
         }
     }
     // transport
-    if n_ios_before != usize::MAX && n_ios_before > 0 {
-        let dropped = d.h.ios[n_ios_before - 1].is_dropped();
-        let connected_after = matches!(d.model.phase, Phase::Idle | Phase::InFlight { .. }) && d.h.ios.len() == n_ios_before;
+    if let Some(dropped) = o.prev_io_dropped {
+        let connected_after = matches!(model.phase, Phase::Idle | Phase::InFlight { .. }) && o.n_ios_after == n_ios_before;
         if e.transport_dropped && !dropped {
             p('L', "transport-not-closed", "the connection should have been closed in this step".into());
         }
@@ -289,17 +323,272 @@ fn compare(d: &mut Driver, e: &Expected, settled: bool, n_ios_before: usize, pro
         }
     }
     // task end
-    if d.h.task.is_done() != d.model.done() {
-        p('L', "task-end", format!("task finished: {}, model: {}", d.h.task.is_done(), d.model.done()));
+    if o.task_done != model.done() {
+        p('L', "task-end", format!("task finished: {}, model: {}", o.task_done, model.done()));
     }
     // command result
-    let results = std::mem::take(&mut *d.cmd_results.lock().unwrap());
     if let Some(want) = e.command_ok {
-        if results != vec![want] {
-            p('L', "command-result", format!("handle call returned {results:?}, expected ok={want}"));
+        if o.cmd_results != vec![want] {
+            p('L', "command-result", format!("handle call returned {:?}, expected ok={want}", o.cmd_results));
         }
     }
-    log.push(format!("cmd {results:?} done={}", d.h.task.is_done()));
+    problems
+}
+
+fn compare(d: &mut Driver, e: &Expected, settled: bool, n_ios_before: usize, problems: &mut Vec<Problem>, log: &mut Vec<String>, step: usize) {
+    let o = observe(d, settled, n_ios_before, log);
+    problems.extend(judge_obs(&o, e, &d.model, n_ios_before, step));
+}
+
+// ---------------------------------------------------------------------------------------------
+// ties: two events that become visible to the client task in the same poll (a command or request
+// queued at the very instant a timer fires, a connect attempt resolves or the peer's bytes arrive).
+// Which of the two the task handles first is tokio's choice (`select!` starts at a random branch),
+// so both orders are acceptable - but nothing else is: in particular nothing may be lost.
+// ---------------------------------------------------------------------------------------------
+
+fn merge_expected(a: Expected, b: Expected) -> Expected {
+    Expected {
+        wire: [a.wire, b.wire].concat(),
+        completions: [a.completions, b.completions].concat(),
+        states: [a.states, b.states].concat(),
+        attempts: a.attempts + b.attempts,
+        transport_dropped: a.transport_dropped || b.transport_dropped,
+        task_done: a.task_done || b.task_done,
+        command_ok: a.command_ok.or(b.command_ok),
+        ffi_refused: a.ffi_refused || b.ffi_refused,
+    }
+}
+
+/// the environment event `b` (chosen while the model was in state m0, `dt` = the clock advance it
+/// stands for) applied to a model that may have moved on: an event that no longer applies is moot
+fn apply_env(m: &mut ClientModel, b: &Ev, dt: u64) -> Expected {
+    match b {
+        Ev::AdvanceToNext => {
+            let target = m.now + dt;
+            let mut acc = Expected::default();
+            loop {
+                match m.next_timer() {
+                    Some(t) if t <= target && !m.done() => acc = merge_expected(acc, m.apply(&Ev::AdvanceToNext)),
+                    _ => break,
+                }
+            }
+            if m.now < target {
+                m.now = target;
+            }
+            acc
+        }
+        _ => {
+            if !m.done() && m.enabled_events(usize::MAX).contains(b) {
+                m.apply(b)
+            } else {
+                Expected::default()
+            }
+        }
+    }
+}
+
+fn apply_caller(m: &mut ClientModel, a: &Ev) -> Option<Expected> {
+    let h = match a {
+        Ev::Enable(h) | Ev::Disable(h) | Ev::SetDecode(h) | Ev::Shutdown(h) | Ev::DropHandle(h) => *h,
+        Ev::Submit { handle, .. } => *handle,
+        _ => return None,
+    };
+    if !m.handles[h] {
+        return None;
+    }
+    Some(m.apply(a))
+}
+
+pub struct TieResult {
+    pub prefix_ok: bool,
+    pub problems: Vec<Problem>,
+    pub order: &'static str,
+    pub obs: Vec<String>,
+}
+
+pub fn run_tie_path(cfg: &SmCfg, prefix: &[Ev], a: &Ev, b: &Ev) -> TieResult {
+    let tcfg = ClientTaskCfg {
+        queue: cfg.cap,
+        max_timeouts: cfg.max_timeouts,
+        retry_min_ms: cfg.retry_min,
+        retry_max_ms: cfg.retry_max,
+        decode: decode_level(cfg.decode),
+        handles: cfg.handles,
+    };
+    let mut d = Driver {
+        h: ClientTaskHarness::new(&tcfg),
+        model: ClientModel::new(cfg.cap, cfg.max_timeouts, cfg.retry_min, cfg.retry_max, cfg.handles),
+        cmd_results: Default::default(),
+        seen_ids: vec![],
+    };
+    let mut problems = vec![];
+    let mut obs_log = vec![];
+    let e = d.model.start();
+    let ok = d.h.settle();
+    compare(&mut d, &e, ok, usize::MAX, &mut problems, &mut obs_log, 0);
+    for (i, ev) in prefix.iter().enumerate() {
+        if !problems.is_empty() {
+            break;
+        }
+        let n_ios = d.h.ios.len();
+        inject(&mut d, ev, &mut problems, &mut obs_log, i);
+        let e = d.model.apply(ev);
+        let ok = d.h.settle();
+        compare(&mut d, &e, ok, n_ios, &mut problems, &mut obs_log, i);
+    }
+    if !problems.is_empty() {
+        return TieResult { prefix_ok: false, problems, order: "-", obs: obs_log };
+    }
+    // the tie
+    let step = prefix.len();
+    let m0 = d.model.clone();
+    let n_ios = d.h.ios.len();
+    let dt = match b {
+        Ev::AdvanceToNext => m0.next_timer().expect("timer armed") - m0.now,
+        _ => 0,
+    };
+    obs_log.push("--tie--".to_string());
+    inject(&mut d, a, &mut problems, &mut obs_log, step);
+    let ok_callers = d.h.settle_callers();
+    inject(&mut d, b, &mut problems, &mut obs_log, step);
+    let ok = d.h.settle() && ok_callers;
+    let o = observe(&mut d, ok, n_ios, &mut obs_log);
+    // caller first, then the environment
+    let mut m1 = m0.clone();
+    let alt1 = apply_caller(&mut m1, a).map(|ea| {
+        let eb = apply_env(&mut m1, b, dt);
+        merge_expected(ea, eb)
+    });
+    // the environment first, then the caller
+    let mut m2 = m0.clone();
+    let eb2 = apply_env(&mut m2, b, dt);
+    let alt2 = apply_caller(&mut m2, a).map(|ea| merge_expected(eb2, ea));
+    let p1 = alt1.as_ref().map(|e| judge_obs(&o, e, &m1, n_ios, step));
+    let p2 = alt2.as_ref().map(|e| judge_obs(&o, e, &m2, n_ios, step));
+    let order;
+    match (p1, p2) {
+        (Some(p), _) if p.is_empty() => {
+            d.model = m1;
+            order = "caller-first";
+        }
+        (_, Some(p)) if p.is_empty() => {
+            d.model = m2;
+            order = "environment-first";
+        }
+        (p1, p2) => {
+            let mut all = p1.unwrap_or_default();
+            for mut q in p2.unwrap_or_default() {
+                q.desc = format!("(other order) {}", q.desc);
+                all.push(q);
+            }
+            return TieResult { prefix_ok: true, problems: all, order: "neither", obs: obs_log };
+        }
+    }
+    // run to the horizon from the adopted model
+    let tail = epilogue(&d.model);
+    for (k, ev) in tail.iter().enumerate() {
+        let i = step + 1 + k;
+        let n_ios = d.h.ios.len();
+        inject(&mut d, ev, &mut problems, &mut obs_log, i);
+        let e = d.model.apply(ev);
+        let ok = d.h.settle();
+        compare(&mut d, &e, ok, n_ios, &mut problems, &mut obs_log, i);
+        if !problems.is_empty() {
+            break;
+        }
+    }
+    TieResult { prefix_ok: true, problems, order, obs: obs_log }
+}
+
+pub fn explore_ties(prop: &str, aspects: &str, cfg: &SmCfg, prefix_depth: usize, repeats: usize) -> Stats {
+    // prefixes: every path of the life-cycle alphabet up to the depth
+    let sub = |style: MStyle| Ev::Submit { handle: 0, style, timeout_ms: 5 };
+    let mut prefixes: Vec<Vec<Ev>> = vec![];
+    fn rec(m: &ClientModel, path: &mut Vec<Ev>, depth: usize, out: &mut Vec<Vec<Ev>>) {
+        out.push(path.clone());
+        if path.len() >= depth || m.done() {
+            return;
+        }
+        let mut evs = m.enabled_events(3);
+        evs.retain(|e| {
+            matches!(
+                e,
+                Ev::Enable(0) | Ev::Disable(0) | Ev::ConnectOk | Ev::ConnectFail | Ev::Eof | Ev::ReplyOk | Ev::AdvanceToNext | Ev::Submit { handle: 0, style: MStyle::Future, .. }
+            )
+        });
+        for e in evs {
+            let mut m2 = m.clone();
+            m2.apply(&e);
+            path.push(e);
+            rec(&m2, path, depth, out);
+            path.pop();
+        }
+    }
+    let mut m = ClientModel::new(cfg.cap, cfg.max_timeouts, cfg.retry_min, cfg.retry_max, cfg.handles);
+    m.start();
+    m.apply(&Ev::Enable(0));
+    rec(&m, &mut vec![Ev::Enable(0)], prefix_depth, &mut prefixes);
+    let callers = vec![sub(MStyle::Future), sub(MStyle::Callback), Ev::Disable(0), Ev::Enable(0), Ev::SetDecode(0), Ev::Shutdown(0), Ev::DropHandle(0), Ev::DropHandle(1)];
+    let prop = prop.to_string();
+    let aspects = aspects.to_string();
+    parallel(prefixes.len(), |j, st| {
+        let prefix = &prefixes[j];
+        let mut m = ClientModel::new(cfg.cap, cfg.max_timeouts, cfg.retry_min, cfg.retry_max, cfg.handles);
+        m.start();
+        for e in prefix {
+            m.apply(e);
+        }
+        if m.done() {
+            return;
+        }
+        let envs: Vec<Ev> = m
+            .enabled_events(0)
+            .into_iter()
+            .filter(|e| matches!(e, Ev::AdvanceToNext | Ev::ConnectOk | Ev::ConnectFail | Ev::Eof | Ev::ReadError | Ev::ReplyOk | Ev::BadHeader))
+            .collect();
+        for a in &callers {
+            let alive = match a {
+                Ev::DropHandle(h) => m.handles.get(*h).copied().unwrap_or(false),
+                _ => m.handles[0],
+            };
+            if !alive {
+                continue;
+            }
+            for b in &envs {
+                for _ in 0..repeats {
+                    let describe = || ("client-tie".to_string(), format!("prefix {prefix:?} tie ({a:?} || {b:?})"), json!({"kind": "client-tie", "property": prop, "cfg": cfg, "prefix": prefix, "a": a, "b": b, "aspects": aspects}));
+                    let r = crate::sim::watchdog::guard(&describe, || run_tie_path(cfg, prefix, a, b));
+                    st.evaluations += 1;
+                    if !r.prefix_ok {
+                        st.class("tie:prefix-diverged");
+                        continue;
+                    }
+                    st.traces += 1;
+                    st.transitions += prefix.len() as u64 + 2;
+                    st.class(match r.order {
+                        "caller-first" => "tie:caller-first",
+                        "environment-first" => "tie:environment-first",
+                        _ => "tie:neither-order",
+                    });
+                    st.class(ev_name(b));
+                    st.observe(&(prefix.len(), a, b, r.order));
+                    if st.traces % 997 == 0 {
+                        st.sample(json!({"prefix": format!("{prefix:?}"), "tie": format!("{a:?} || {b:?}"), "resolved_as": r.order}));
+                    }
+                    let relevant: Vec<&Problem> = r.problems.iter().filter(|p| aspects.contains(p.aspect) || p.aspect == 'P').collect();
+                    if let Some(p) = relevant.first() {
+                        st.violation(Violation {
+                            signature: format!("tie:{}", p.sig),
+                            summary: format!("prefix {prefix:?}, then {a:?} and {b:?} in the same poll: {}", r.problems.iter().map(|p| p.desc.clone()).collect::<Vec<_>>().join(" | ")),
+                            replay: json!({"kind": "client-tie", "property": prop, "cfg": cfg, "prefix": prefix, "a": a, "b": b, "aspects": aspects}),
+                        });
+                        break;
+                    }
+                }
+            }
+        }
+    })
 }
 
 fn class_name(c: &OutClass) -> &'static str {
@@ -555,6 +844,23 @@ pub fn replay(v: &serde_json::Value) -> Vec<(String, String)> {
         .collect()
 }
 
+/// a tie is resolved by tokio's random branch order: a failing case is replayed up to 16 times
+pub fn replay_tie(v: &serde_json::Value) -> Vec<(String, String)> {
+    let cfg: SmCfg = serde_json::from_value(v["cfg"].clone()).unwrap();
+    let prefix: Vec<Ev> = serde_json::from_value(v["prefix"].clone()).unwrap();
+    let a: Ev = serde_json::from_value(v["a"].clone()).unwrap();
+    let b: Ev = serde_json::from_value(v["b"].clone()).unwrap();
+    let aspects = v["aspects"].as_str().unwrap_or("CWTLDP").to_string();
+    for _ in 0..16 {
+        let r = run_tie_path(&cfg, &prefix, &a, &b);
+        let out: Vec<(String, String)> = r.problems.into_iter().filter(|p| aspects.contains(p.aspect) || p.aspect == 'P').map(|p| (format!("tie:{}", p.sig), format!("step {}: {}", p.step, p.desc))).collect();
+        if !out.is_empty() {
+            return out;
+        }
+    }
+    vec![]
+}
+
 fn default_cost(e: &Ev) -> usize {
     match e {
         Ev::Enable(_) | Ev::ConnectOk | Ev::ReplyOk | Ev::AdvanceToNext | Ev::ReplyRest => 0,
@@ -572,7 +878,7 @@ pub fn check_c10(tier: &str) -> i32 {
         "C10",
         tier,
         "model_checking",
-        "all event sequences up to depth D with at most K deviations over {submit (2 handles; future, callback and FfiChannel style), reply ok/exception/bad/partial+rest/stale, bad header, read error, EOF, write error, advance to the next deadline, advance 1 ms, enable, disable, set-decode, shutdown, drop handle, abort task, connect ok/fail} on the production TcpChannelTask (connector seam), queue capacity 2 and 16, max_response_timeouts None/1/2; every path is extended by an epilogue (drop all handles, expire all timers). After every event the set of completed requests and their results is compared with the reference client model; no request may complete twice or stay pending at the horizon. states = distinct reference-model states reached",
+        "all event sequences up to depth D with at most K deviations over {submit (2 handles; future, callback and FfiChannel style), reply ok/exception/bad/partial+rest/stale, bad header, read error, EOF, write error, advance to the next deadline, advance 1 ms, enable, disable, set-decode, shutdown, drop handle, abort task, connect ok/fail} on the production TcpChannelTask (connector seam), queue capacity 2 and 16, max_response_timeouts None/1/2; every path is extended by an epilogue (drop all handles, expire all timers). After every event the set of completed requests and their results is compared with the reference client model; no request may complete twice or stay pending at the horizon. Ties: after every life-cycle prefix up to depth P, every pair (handle call or request, environment event) is made visible to the task in the same poll; both processing orders are accepted, nothing else. states = distinct reference-model states reached",
     );
     let thorough = rep.thorough();
     let (depth, k) = if thorough { (7, 3) } else { (6, 2) };
@@ -597,6 +903,12 @@ pub fn check_c10(tier: &str) -> i32 {
         let st = explore(&x, &[vec![]]);
         rep.phase(&format!("from cold start, cap={} N={:?}", cfg.cap, cfg.max_timeouts), st, json!({"cfg": cfg}));
     }
+    // ties: a request or command queued in the very poll in which a timer fires, a connection
+    // attempt resolves or bytes / EOF arrive
+    for cfg in &cfgs[..2] {
+        let st = explore_ties("C10", "C", cfg, if thorough { 5 } else { 4 }, 2);
+        rep.phase(&format!("ties (two events in one poll), cap={} N={:?}", cfg.cap, cfg.max_timeouts), st, json!({"cfg": cfg, "prefix_depth": if thorough { 5 } else { 4 }, "runs_per_tie": 2}));
+    }
     // the request loop over RTU framing (serial links): one connection, no transaction ids
     for (cap, n) in [(16usize, None), (2, Some(2usize))] {
         let scfg = SessCfg { rtu: true, cap, max_timeouts: n, decode: (0, 0, 0) };
@@ -604,10 +916,11 @@ pub fn check_c10(tier: &str) -> i32 {
         let st = explore_session(&x);
         rep.phase(&format!("RTU request loop, cap={cap} N={n:?}"), st, json!({"cfg": scfg}));
     }
-    for c in ["ev:submit-future", "ev:submit-callback", "ev:submit-ffi", "ev:reply-ok", "ev:reply-partial", "ev:reply-rest", "ev:read-error", "ev:eof", "ev:write-error-next", "ev:advance-to-next", "ev:disable", "ev:shutdown", "ev:drop-handle", "ev:abort-task", "ev:connect-fail", "ev:bad-header", "ev:reply-stale"] {
+    for c in ["ev:submit-future", "ev:submit-callback", "ev:submit-ffi", "ev:reply-ok", "ev:reply-partial", "ev:reply-rest", "ev:read-error", "ev:eof", "ev:write-error-next", "ev:advance-to-next", "ev:disable", "ev:shutdown", "ev:drop-handle", "ev:abort-task", "ev:connect-fail", "ev:bad-header", "ev:reply-stale", "tie:caller-first"] {
         rep.require_class(c);
     }
-    rep.assumptions.push("a reply completing in the same virtual millisecond as its deadline is excluded (tokio select! tie)".into());
+    rep.assumptions.push("a reply arriving in the same virtual millisecond as its deadline may be accepted or not (tokio select! tie): not judged".into());
+    rep.assumptions.push("ties are resolved by tokio's random select! start branch, which the harness does not control: each tie is run twice and both processing orders are accepted (counts per order are in outcome_classes)".into());
     rep.assumptions.push("for FfiChannel calls refused synchronously (queue full / closed) only 'exactly one callback with an error' is judged".into());
     rep.finish()
 }
@@ -657,6 +970,11 @@ pub fn check_c11(tier: &str) -> i32 {
     let x = Explore { prop: "C11", cfg: &cfg, depth: depth + 2, max_dev: if thorough { 3 } else { 2 }, max_requests: 3, aspects: "WC", filter: &filter, cost: &cost, extra: &c11_extra };
     let st = explore(&x, &[connected_prefix()]);
     rep.phase("sequences", st, json!({"cfg": cfg}));
+    // the same alphabet with every decoding (logging) level switched on, two events less deep
+    let cfg_all = SmCfg { decode: (3, 2, 2), ..cfg.clone() };
+    let x2 = Explore { prop: "C11", cfg: &cfg_all, depth: depth, max_dev: if thorough { 3 } else { 2 }, max_requests: 3, aspects: "WC", filter: &filter, cost: &cost, extra: &c11_extra };
+    let st = explore(&x2, &[connected_prefix()]);
+    rep.phase("sequences, all decoding levels on", st, json!({"cfg": cfg_all}));
     // the long path across the id wrap
     let mut st = Stats::default();
     let mut path = connected_prefix();
@@ -855,6 +1173,13 @@ pub fn check_c13_sim(rep: &mut Report) {
         let st = explore(&x, &[vec![]]);
         rep.phase(&format!("simulated TCP task, cap={cap} N={n:?} handles={handles}"), st, json!({"cfg": cfg, "depth": depth}));
     }
+    // ties: a handle call (enable, disable, shutdown, drop, request) queued in the very poll in which
+    // the retry wait ends, the connection attempt resolves or the connection is lost: either order is
+    // a legal path of the state machine, nothing else is (and no call may be lost)
+    let cfg = SmCfg { cap: 16, max_timeouts: Some(1), retry_min: 3, retry_max: 12, handles: 2, decode: (0, 0, 0) };
+    let pd = if thorough { 5 } else { 4 };
+    let st = explore_ties("C13", "LC", &cfg, pd, 2);
+    rep.phase("ties (two events in one poll)", st, json!({"cfg": cfg, "prefix_depth": pd, "runs_per_tie": 2}));
 }
 
 // ---------------------------------------------------------------------------------------------
@@ -1096,7 +1421,7 @@ pub fn check_c13(tier: &str) -> i32 {
     check_c13_sim(&mut rep);
     crate::checks::lifecycle_net::net_phase(&mut rep, "C13");
     crate::checks::serial_pty::serial_client_phase(&mut rep, "C13");
-    for c in ["serial-history-pty", "net-history-tcp", "net-history-tls", "ev:enable", "ev:disable", "ev:shutdown", "ev:drop-handle", "ev:connect-fail", "ev:connect-ok", "ev:eof", "ev:advance-to-next", "ev:submit-future"] {
+    for c in ["serial-history-pty", "net-history-tcp", "net-history-tls", "ev:enable", "ev:disable", "ev:shutdown", "ev:drop-handle", "ev:connect-fail", "ev:connect-ok", "ev:eof", "ev:advance-to-next", "ev:submit-future", "tie:caller-first"] {
         rep.require_class(c);
     }
     rep.finish()
